@@ -85,65 +85,87 @@ def check(tier):
             perms = [perms[0], perms[-1], perms[len(perms) // 2]]
         for order in perms:
             inputs.append({"id": f"project{pi}", "src": "", "dialect": None, "files": [list(f) for f in order]})
-    ip = os.path.join(d, "inputs.json"); json.dump(inputs, open(ip, "w"))
     hp = os.path.join(d, "history.json"); json.dump(HISTORY, open(hp, "w"))
     vin = [{"id": "version@9", "src": "from t | derive {v = prql.version} | take 1", "dialect": None},
            {"id": "header@9", "src": "prql version:\"^9.9\"\nfrom t | take 1", "dialect": None}]
     vp = os.path.join(d, "vinputs.json"); json.dump(vin, open(vp, "w"))
-    runs = [("seq", ["1", "1", "0", "sequential"], None, {}),
-            ("thr", ["8" if tier == "thorough" else "6", "2", "1", "threads+debug-log"], None, {}),
-            ("thr2", ["4", "2", "1", "threads+debug-log"], None, {}),
-            ("hist", ["2", "1", "0", "after-failing-and-panicking-calls"], hp, {})]
-    nproc = 6 if tier == "quick" else 16
-    for k in range(nproc):
-        runs.append((f"fresh{k}", ["1", "1", "0", "fresh-process"], None, {}))
-    files = []
-    def run(r):
-        name, a, hist, env = r
-        op = os.path.join(d, name + ".ndjson")
-        args = ["purity", ip, op] + a + ([hist] if hist else [])
-        pv(args, env=env)
-        return op
-    from concurrent.futures import ThreadPoolExecutor
-    with ThreadPoolExecutor(max_workers=4) as ex:
-        files = list(ex.map(run, runs))
-    # version: a process that changes the environment after a first call vs fresh processes started with it
-    pv(["purity", vp, os.path.join(d, "env1.ndjson"), "1", "1", "0", "env-version"])
-    pv(["purity", vp, os.path.join(d, "env2.ndjson"), "1", "1", "0", "env-fresh"], env={"PRQL_VERSION_OVERRIDE": "9.9.9"})
-    files += [os.path.join(d, "env2.ndjson"), os.path.join(d, "env1.ndjson")]
-    evs = []
-    for f in files:
-        evs += read_ndjson(f)
-    evs.append({"event": "End"})
-    # uniform record shapes for TLC
-    norm = []
-    for e in evs:
-        base = {"event": e["event"], "seq": 0, "thread": 0, "action": "", "present": False, "suppress": 0, "entries": 0,
-                "input": "", "out": 0, "kind": "", "scenario": ""}
-        base.update({k: v for k, v in e.items() if k in base})
-        norm.append(base)
-    tp = os.path.join(d, "trace.ndjson"); write_ndjson(tp, norm)
-    tout, tinfo = tlc("PurityTrace", "PurityTrace.cfg", env={"TRACE": tp}, workers=1, deque=True, xmx="8g")
-    tr = tuples(tout, "TRACE")
-    if not tinfo["no_error"] or not tr or tr[0][1] != tr[0][2]:
-        raise ToolError("PurityTrace did not consume the trace: " + tinfo.get("error_text", tout[-1200:])[:1500])
-    byinput = {}
-    for e in evs:
-        if e.get("event") == "Result":
-            byinput.setdefault(e["input"], set()).add(e.get("text", ""))
-    src_of = {i["id"]: (i["src"] or json.dumps(i.get("files"))) for i in inputs + vin}
-    for r in tuples(tout, "REJECT"):
-        if r[1] == "sched":
-            rep.violation({"property": "C11", "kind": "schedule", "action": r[2], "seq": r[3], "trace_line": r[4]}, {"what": "schedule", "action": r[2]})
-        else:
-            iid, api = r[2].rsplit("#", 1)
-            texts = sorted(byinput.get(r[2], []))[:3]
-            sig = {"what": "nondeterministic" if r[1] == "result" else "panic", "api": api, "src": src_of.get(iid, ""), "scenario": r[3],
-                   "outputs": " || ".join(texts)}
-            rep.violation({"property": "C11", "kind": sig["what"], "input": iid, "api": api, "scenario": r[3], "prql": src_of.get(iid), "distinct_outputs": texts}, sig)
+    all_norm, all_evs_n = [], 0
+    def run_chunk(ci, inputs):
+        ip = os.path.join(d, f"inputs{ci}.json"); json.dump(inputs, open(ip, "w"))
+        runs = [("seq", ["1", "1", "0", "sequential"], None, {}),
+                ("thr", ["8" if tier == "thorough" else "6", "2", "1", "threads+debug-log"], None, {}),
+                ("thr2", ["4", "2", "1", "threads+debug-log"], None, {}),
+                ("hist", ["2", "1", "0", "after-failing-and-panicking-calls"], hp, {})]
+        nproc = 6 if tier == "quick" else 16
+        for k in range(nproc):
+            runs.append((f"fresh{k}", ["1", "1", "0", "fresh-process"], None, {}))
+        files = []
+        def run(r):
+            name, a, hist, env = r
+            op = os.path.join(d, f"{name}-{ci}.ndjson")
+            args = ["purity", ip, op] + a + ([hist] if hist else [])
+            pv(args, env=env)
+            return op
+        from concurrent.futures import ThreadPoolExecutor
+        with ThreadPoolExecutor(max_workers=4) as ex:
+            files = list(ex.map(run, runs))
+        # version: a process that changes the environment after a first call vs fresh processes started with it
+        pv(["purity", vp, os.path.join(d, f"env1-{ci}.ndjson"), "1", "1", "0", "env-version"])
+        pv(["purity", vp, os.path.join(d, f"env2-{ci}.ndjson"), "1", "1", "0", "env-fresh"], env={"PRQL_VERSION_OVERRIDE": "9.9.9"})
+        files += [os.path.join(d, f"env2-{ci}.ndjson"), os.path.join(d, f"env1-{ci}.ndjson")]
+        evs = []
+        for f in files:
+            evs += read_ndjson(f)
+        evs.append({"event": "End"})
+        # uniform record shapes for TLC
+        norm = []
+        for e in evs:
+            base = {"event": e["event"], "seq": 0, "thread": 0, "action": "", "present": False, "suppress": 0, "entries": 0,
+                    "input": "", "out": 0, "kind": "", "scenario": ""}
+            base.update({k: v for k, v in e.items() if k in base})
+            norm.append(base)
+        tp = os.path.join(d, f"trace{ci}.ndjson"); write_ndjson(tp, norm)
+        tout, tinfo = tlc("PurityTrace", "PurityTrace.cfg", env={"TRACE": tp}, workers=1, deque=True, xmx="8g")
+        tr = tuples(tout, "TRACE")
+        if not tinfo["no_error"] or not tr or tr[0][1] != tr[0][2]:
+            raise ToolError("PurityTrace did not consume the trace: " + tinfo.get("error_text", tout[-1200:])[:1500])
+        byinput = {}
+        for e in evs:
+            if e.get("event") == "Result":
+                byinput.setdefault(e["input"], set()).add(e.get("text", ""))
+        src_of = {i["id"]: (i["src"] or json.dumps(i.get("files"))) for i in inputs + vin}
+        for r in tuples(tout, "REJECT"):
+            if r[1] == "sched":
+                rep.violation({"property": "C11", "kind": "schedule", "action": r[2], "seq": r[3], "trace_line": r[4]}, {"what": "schedule", "action": r[2]})
+            else:
+                iid, api = r[2].rsplit("#", 1)
+                texts = sorted(byinput.get(r[2], []))[:3]
+                sig = {"what": "nondeterministic" if r[1] == "result" else "panic", "api": api, "src": src_of.get(iid, ""), "scenario": r[3],
+                       "outputs": " || ".join(texts)}
+                rep.violation({"property": "C11", "kind": sig["what"], "input": iid, "api": api, "scenario": r[3], "prql": src_of.get(iid), "distinct_outputs": texts}, sig)
+
+        return norm, tinfo
+    # the sites and projects first (a project's enumeration orders share an id and must meet in one chunk); the thorough
+    # tier validates its inputs in chunks so that one TLC run holds a few hundred thousand events
+    head = [i for i in inputs if not i["id"].startswith("g")]
+    tail = [i for i in inputs if i["id"].startswith("g")]
+    size = 500
+    chunks = [head + tail[:size]] + [tail[j:j + size] for j in range(size, len(tail), size)]
+    norm, tinfo = None, {"distinct": 0}
+    nsched_total = nres_total = 0
+    acts_total = {}
+    for ci, ch in enumerate(chunks):
+        nm, ti = run_chunk(ci, ch)
+        tinfo["distinct"] = tinfo.get("distinct", 0) + ti.get("distinct", 0)
+        nsched_total += sum(1 for e in nm if e["event"] == "Sched"); nres_total += sum(1 for e in nm if e["event"] == "Result")
+        for e in nm:
+            if e["event"] == "Sched":
+                acts_total[e["action"]] = acts_total.get(e["action"], 0) + 1
+        if norm is None:
+            norm = nm
     # binding demonstration: drop one hook event / change one counter / one result
     thr = []
-    for e in read_ndjson(os.path.join(d, "thr.ndjson")):
+    for e in read_ndjson(os.path.join(d, "thr-0.ndjson")):
         base = {"event": e["event"], "seq": 0, "thread": 0, "action": "", "present": False, "suppress": 0, "entries": 0,
                 "input": "", "out": 0, "kind": "", "scenario": ""}
         base.update({k: v for k, v in e.items() if k in base})
@@ -163,17 +185,13 @@ def check(tier):
         nrej.append(len(tuples(o_, "REJECT")))
     if not all(x > nrej[0] for x in nrej[1:]):
         raise ToolError(f"C11 selftest: removed / corrupted hook events not rejected (rejections good/bad: {nrej})")
-    c = tuples(tout, "COUNTS")
-    nsched = sum(1 for e in norm if e["event"] == "Sched"); nres = sum(1 for e in norm if e["event"] == "Result")
-    acts = {}
-    for e in norm:
-        if e["event"] == "Sched":
-            acts[e["action"]] = acts.get(e["action"], 0) + 1
+    nsched, nres, acts = nsched_total, nres_total, acts_total
+    nruns = (4 + (6 if tier == "quick" else 16) + 2) * len(chunks)
     cov = {"states": info["distinct"] + tinfo.get("distinct", 0), "transitions": info["generated"] + tinfo.get("distinct", 0),
-           "traces_validated_against_impl": len(runs) + 2,
+           "traces_validated_against_impl": nruns,
            "samples": [{"scenario": "threads+debug-log", "first_events": [e for e in norm if e["event"] == "Sched"][:6]}, {"input": SITES[0][1]}, {"project": PROJECT[0]}],
-           "explanation": f"PurityMC: all {info['distinct']} states of 2 compiling threads x 2 compiles + a debugging thread over the lock-protected debug log and the std once-cell (NoPanic, Pure, OnceOnly hold; the unrepaired release is shown to violate NoPanic, so the model is not vacuous); {len(runs) + 2} recorded process runs ({nsched} hook events numbered under the lock, {nres} results) validated by PurityTrace: the event sequence must be a behaviour of the log machine and every (input, API) must yield one artefact across threads, rounds, histories, fresh processes (new hash seeds), file enumeration orders and a changed PRQL_VERSION_OVERRIDE",
-           "hook_events": nsched, "hook_actions": acts, "results": nres, "process_runs": len(runs) + 2, "inputs": len(inputs),
+           "explanation": f"PurityMC: all {info['distinct']} states of 2 compiling threads x 2 compiles + a debugging thread over the lock-protected debug log and the std once-cell (NoPanic, Pure, OnceOnly hold; the unrepaired release is shown to violate NoPanic, so the model is not vacuous); {nruns} recorded process runs ({nsched} hook events numbered under the lock, {nres} results) validated by PurityTrace: the event sequence must be a behaviour of the log machine and every (input, API) must yield one artefact across threads, rounds, histories, fresh processes (new hash seeds), file enumeration orders and a changed PRQL_VERSION_OVERRIDE",
+           "hook_events": nsched, "hook_actions": acts, "results": nres, "process_runs": nruns, "chunks": len(chunks), "inputs": len(inputs),
            "unrepaired_model_counterexample_found": True, "selftest": {"removed_event_and_corrupted_counter_rejected": True}}
     return rep.finish("model_checking", cov,
                       ["hash-seed independence is statistical: each run is a new process (new RandomState keys) and every HashMap created in a process gets new keys; a site with two candidates is missed by n runs with probability 2^-n",
